@@ -267,7 +267,19 @@ func cmdCheck(args []string) int {
 		}
 		for i, w := range res.Witnesses {
 			if i < 2 {
-				samples = append(samples, map[string]interface{}{"harness": w.Harness, "inputs": w.Inputs, "observed": w.Observed})
+				smp := map[string]interface{}{"harness": w.Harness, "inputs": w.Inputs, "observed": w.Observed}
+				if len(w.Sched) > 0 {
+					var evs []string
+					for k, e := range w.Sched {
+						if k >= 60 {
+							evs = append(evs, fmt.Sprintf("... (%d operations in all)", len(w.Sched)))
+							break
+						}
+						evs = append(evs, fmt.Sprintf("g%d:%s", e.G, e.Kind))
+					}
+					smp["schedule"] = evs
+				}
+				samples = append(samples, smp)
 			}
 		}
 	}
@@ -758,7 +770,7 @@ func buildEvidence(id, tier string, seed int64, spec *propSpec, results []*harne
 		"solver_queries": queries, "solver_time_s": round1(solverTime), "solvers": []string{"z3 4.8.12 (deciding)", "z3 5.1.0 (cross-check)", "cvc5 1.0.x (cross-check)"},
 		"cross_checked_queries": xTotal, "merges": merges, "case_splits": splits, "covers_reached": covers,
 		"known_findings_seen": knownSeen, "harnesses": perHarness, "inconclusive": inconclusive, "exhaustive": false,
-		"explanation": "states = symbolic paths explored; transitions = branch decisions + case splits; every assertion and implicit runtime check on every path is an SMT query over all values of the symbolic inputs within the bounds",
+		"explanation": "states = symbolic paths explored (in schedule mode a path is also one schedule); transitions = branch decisions + case splits; obligations = assertions and implicit runtime checks met on those paths, each decided for all values of the symbolic inputs within the bounds - by the SMT solver, or by the executor's simplifier and value sets where the condition is already forced by the path (solver_queries counts what reached the solver: branch feasibility, case splits, assertions)",
 	}
 	return map[string]interface{}{
 		"property_id": id, "tier": tier, "seed": seed, "level": "model_checking", "coverage": cov,
